@@ -181,7 +181,7 @@ class C17(PropCheck):
             "built-in glue, both, neither, raising glue; concurrent: 2-4 threads, a second extraction started while the "
             "first is blocked inside the glue call of each module in turn; non-trivial = some glue ran; distinct = history")
     manifest = {
-        "text": "Lean: C17_conc_once, C17_conc_module_first, C17_conc_mutex (exactly once / never both kinds / module glue first / mutual exclusion of scans for any number of threads under every schedule, by an invariant over atomic steps), C17_once_vanishing / C17_module_first_vanishing (exactly once, never both kinds, module glue first — for every history in which, additionally, any set of modules may vanish from sys.modules while a scan is in progress: the repaired F16), C17_vanishing_conservative (with nothing vanishing the extended scan is the plain one), C17_F16_old_code_witness / C17_F16_repaired; C17_once (over every history of insertions, removals, re-insertions and extractions no module ever has a glue function called twice, nor one of each kind), C17_module_first (built-in glue only runs for modules without their own), C17_raise_only_warns (whether glue raises changes nothing but the inserted warnings: same calls, same order, same bookkeeping), C17_in_time_partial (for histories without removals, when an extraction returns every present module's glue has been dealt with), C17_F4_witness / C17_F4_recovers (the full in-time statement is false: remove one module, add a glue-bearing one — known finding F4). Tie: real call logs of generated histories vs the model; threads entering extract while another scan is blocked inside each glue call are judged by the oracle.",
+        "text": "Lean: C17_conc_once, C17_conc_module_first, C17_conc_mutex (exactly once / never both kinds / module glue first / mutual exclusion of scans for any number of threads under every schedule, by an invariant over atomic steps), C17_once_vanishing / C17_module_first_vanishing (exactly once, never both kinds, module glue first — for every history in which, additionally, any set of modules may vanish from sys.modules while a scan is in progress: the repaired F16), C17_vanishing_conservative (with nothing vanishing the extended scan is the plain one), C17_F16_old_code_witness / C17_F16_repaired; C17_once (over every history of insertions, removals, re-insertions and extractions no module ever has a glue function called twice, nor one of each kind), C17_module_first (built-in glue only runs for modules without their own), C17_raise_only_warns (whether glue raises changes nothing but the inserted warnings: same calls, same order, same bookkeeping), C17_in_time_partial (for histories without removals, when an extraction returns every present module's glue has been dealt with), C17_F4_witness / C17_F4_recovers (the full in-time statement is false: remove one module, add a glue-bearing one — known finding F4), C17_appearing_in_time / C17_appearing_present / C17_appearing_keeps_invariants (modules imported DURING a scan, after its snapshot — a glue function importing its plugin — are dealt with when the next extraction returns: the cache holds the size of the visited snapshot) with C17_live_length_witness (refreshing the cache from the live length breaks it). Tie: real call logs of generated histories vs the model; threads entering extract while another scan is blocked inside each glue call are judged by the oracle.",
         "note": "Concurrency: C17_conc_once / C17_conc_once_log / C17_conc_module_first / C17_conc_mutex hold for any number of threads and every interleaving of their atomic steps with insertions and removals (SSModel/GlueConc.lean); the granularity (both pops for a name in one step) relies on only the lock holder scanning, and on dict.pop being atomic under the GIL. 'In time' under concurrency (a later extraction waits for the scan in progress) is checked on the real code with glue calls as preemption points and compared with the model's log under the same schedule, but not proved (it needs the lock's blocking semantics and fairness). In-time for histories with removals is false (F4).",
     }
     assumptions = ["dict.pop and len() are atomic under the GIL", "fake modules stand for real library modules"]
@@ -237,6 +237,9 @@ class C17(PropCheck):
             sched = [["insert", m[0]] for m in case["mods"]] + [["until_popped", 0, case["block_at"]]]
             sched += [["until_stuck", i] for i in range(1, n)] + [["until_stuck", 0]] + [["until_stuck", i] for i in range(1, n)]
             return json.dumps({"p": "C17", "mods": case["mods"], "threads": n, "sched": sched})
+        if case["k"] == "glue_imports":
+            ops = [["insert", 2 + j] for j in range(case["extra"])] + [["insert", 0], ["extractA", [1]], ["extract"], ["extract"]]
+            return json.dumps({"p": "C17", "mods": case["mods"], "ops": ops})
         if case["k"] != "seq":
             return None
         return json.dumps({"p": "C17", "mods": case["mods"], "ops": case["ops"]})
